@@ -233,7 +233,7 @@ def probe_optim(spec):
         try:
             seen.clear()
             res = op.optimize(**kw)
-            if seen.get('constraints') is not None and 'translation' not in o:
+            if seen.get('constraints') is not None and 'translation' not in o and not kw.get('make_soft_problem'):
                 o['translation'] = _dump_translation(seen)
         except Exception as e:
             r['solve'] = 'crash'
